@@ -11,6 +11,7 @@ structure MDecl where
   size : Nat          -- Message.totalSize measure, computed by the driver from the documented layout
   topic : String      -- message-level topic ("" = none)
   part : Int          -- what the configured (deterministic) balancer returns for this message
+  shape : String := "kv"  -- Key: k bytes / n nil / e empty-not-nil; Value: v bytes / n nil (tombstone) / e empty-not-nil
   deriving Repr
 
 structure CDecl where
@@ -47,6 +48,7 @@ structure Obs where
   stuck : Nat
   stats : String := "-"
   early : Nat := 0     -- batch timers that provably fired before BatchTimeout had elapsed (sound bound, 1 ms tolerance)
+  shapes : List (String × String) := []   -- (id, shape) of every record that reached the broker, any attempt
   deriving Repr
 
 def JReq.applied (r : JReq) : Bool := r.out == "acked" || r.out == "lost1"
@@ -173,6 +175,8 @@ def holdsC01 (cfg : MCfg) (calls : List CDecl) (journal : List JReq) (obs : Obs)
            | _ => false)
        else c.msgs.all (fun m => obs.cbs.all (·.1 != m.key)))
    else obs.cbs.isEmpty) &&
+  -- the record the broker got is the message as given: a nil Key / Value arrives as null, an empty one as empty
+  obs.shapes.all (fun x => match findMsg calls x.1 with | some d => d.2.2.shape == x.2 | none => false) &&
   -- never written to another partition or topic
   journal.all (fun r => r.keys.all (fun k => match findMsg calls k with | some x => expectedTP cfg x.2.2 == (r.topic, r.part) | none => false)) &&
   obs.logs.all (fun l => l.2.all (fun k => match findMsg calls k with | some x => expectedTP cfg x.2.2 == l.1 | none => false)) &&
